@@ -263,3 +263,46 @@ def registry_bad(sc, sysm):
         bad.append(same if na != nb else B.not_(same))
     return B.or_(crash(B, st), B.and_(done(B, st), B.or_(*bad)))
   return f
+
+
+# ---- fabric_start scenario (C13 under concurrent calls) ---------------------------------------------------------------------------
+def two_delivery_threads(sc, sysm):
+  """two running delivery threads of the same kind at the same time"""
+  pool = sc.info["pool"]
+
+  def f(B, st):
+    bad = []
+    for kind in (1, 2):
+      run = [B.and_(B.eq(st["g.kind.%d" % j], B.const(kind)), B.eq(st["pool%d.st" % j], B.const(1))) for j in range(pool)]
+      for a in range(pool):
+        for b in range(a + 1, pool):
+          bad.append(B.and_(run[a], run[b]))
+    return B.or_(*bad)
+  return f
+
+
+def callers_done(sc, sysm):
+  n = sc.info["ncallers"]
+  return lambda B, st: B.and_(*[at_any(B, st, t, done_nodes(sysm, t)) for t in range(n)])
+
+
+def fabric_start_bad(sc, sysm):
+  two = two_delivery_threads(sc, sysm)
+  crash = any_crash(sc, sysm)
+  done = callers_done(sc, sysm)
+  pool = sc.info["pool"]
+
+  def f(B, st):
+    # once every caller has returned: a running delivery thread that the fabric holds no handle of (it can never be stopped)
+    lost = []
+    for j in range(pool):
+      running = B.eq(st["pool%d.st" % j], B.const(1))
+      held = B.or_(B.eq(st["fabric.fifo_thread.val"], B.const(j + 1)), B.eq(st["fabric.lifo_thread.val"], B.const(j + 1)))
+      lost.append(B.and_(running, B.not_(held)))
+    return B.or_(two(B, st), crash(B, st), B.and_(done(B, st), B.or_(*lost)))
+  return f
+
+
+def callers_open(sc, sysm):
+  n = sc.info["ncallers"]
+  return lambda B, st: B.or_(*[B.not_(ended(sysm, B, st, t)) for t in range(n)])
